@@ -35,6 +35,8 @@ func vqSink(kind int, v string) sql.SQLObject {
 		return &sqlMatch{col: col, pattern: v}
 	case 9: // by (<lbl>)
 		return &byWithoutFilterCol{labelsCol: sql.NewRawObject("labels"), labels: []string{v}}
+	case 10: // | line_format with a text-only template (no label references)
+		return &sqlFormat{format: v}
 	default: // map literal keys/values
 		return &sqlMapInit{TypeName: "Map(String, String)", Keys: []sql.SQLObject{sql.NewStringVal(v)},
 			Values: []sql.SQLObject{sql.NewStringVal(v)}}
@@ -50,7 +52,7 @@ func VH_C10_planner_sql_objects() {
 	if vrt.Thorough() {
 		maxLen = 3
 	}
-	kind := vrt.Choice("object", 11)
+	kind := vrt.Choice("object", 12)
 	v := vrt.String("text", vrt.Len("text-len", 0, maxLen))
 	if kind == 5 {
 		vrt.Assume(len(v) > 0) // an empty drop value selects the other clause form
